@@ -304,7 +304,7 @@ func payloadMain(args []string) int {
 					hs := make([]sts.Hashed, len(e.Files))
 					for j, f := range e.Files {
 						f.Time = f.Time % 6 // nothing is withheld here
-						hs[j] = realFile(f)
+						hs[j] = realFile(f, &qClock{})
 					}
 					q.Push(hs)
 				}
